@@ -30,6 +30,7 @@ func c06Script() string {
 	b.WriteString("route add redir redir.test/p http://new.test$path opts \"redirect=301\"\n")
 	b.WriteString("route add redirh redirh.test/ https://$host/moved$path opts \"redirect=302\"\n")
 	b.WriteString("route add redirs redirs.test/ https://static.test/fixed opts \"redirect=308\"\n")
+	b.WriteString("route add redirho *.hostonly.test/ https://$host/login opts \"redirect=302\"\n") // depends on the request through $host alone
 	b.WriteString("route add redirq redirq.test/q/ http://new.test/base/$path opts \"redirect=307 strip=/q\"\n")
 	for k, ws := range c06Weights {
 		for j, w := range ws {
@@ -92,7 +93,7 @@ func c06Concurrent(c *ctx) {
 		// a fresh table object per round: cursors start at zero
 		t, _ := newTable(script)
 		tg, _ := newTable(c06GlobScript())
-		gcs := []*route.GlobCache{route.NewGlobCache(8), route.NewGlobCache(32)}
+		gcs := []*route.GlobCache{route.NewGlobCache(8), route.NewGlobCache(32), route.NewGlobCache(0)} // size 0: nothing may be kept
 		// ---------- phase A: stable table, exact share ----------
 		counts := make([]map[string]*atomic.Int64, len(c06Weights))
 		ringLen := make([]int, len(c06Weights))
@@ -121,7 +122,7 @@ func c06Concurrent(c *ctx) {
 			wg.Add(1)
 			go func(g int) {
 				defer wg.Done()
-				gc := gcs[g%2]
+				gc := gcs[g%len(gcs)]
 				// goroutine g performs lookups number g, g+64, ... of cycles*ringLen per weighted route: whole cycles in total
 				for k := range c06Weights {
 					host := fmt.Sprintf("w%d.test", k)
@@ -258,6 +259,27 @@ func c06Unique(c *ctx, t, tg route.Table, gc *route.GlobCache, g, i int, failed 
 			got = x.RedirectURL.String()
 		}
 		c.R.Violate("c06:redirect-crossed", fmt.Sprintf("goroutine %d iteration %d: redirect for %s is %s, want %s", g, i, p, got, want), nil)
+		failed.Store(true)
+		return
+	}
+	// redirect that depends on the request through $host alone
+	hhost := fmt.Sprintf("g%d-i%d.hostonly.test", g, i)
+	req = &http.Request{Host: hhost, URL: &url.URL{Path: "/whatever"}, Header: http.Header{}}
+	done = mark(1, g, i)
+	pm = safely(func() { x = t.Lookup(req, "", route.Picker["rr"], route.Matcher["prefix"], gc, false) })
+	done()
+	c.R.Eval(1)
+	if pm != "" {
+		c.R.Violate("c06:lookup-panic", "lookup on a redirect route panicked: "+pm, nil)
+		failed.Store(true)
+		return
+	}
+	if want := "https://" + hhost + "/login"; x == nil || x.RedirectURL == nil || x.RedirectURL.String() != want {
+		got := "<nil>"
+		if x != nil && x.RedirectURL != nil {
+			got = x.RedirectURL.String()
+		}
+		c.R.Violate("c06:redirect-crossed:host-only-template", fmt.Sprintf("goroutine %d iteration %d: redirect for host %s is %s, want %s", g, i, hhost, got, want), nil)
 		failed.Store(true)
 		return
 	}
